@@ -170,7 +170,8 @@ def special_names():
              ("PartitionErrorCode", "int16", {}), ("ISRReplicas", "[]int32", {}), ("V3AndBelow", "bool", {}), ("Type", "int8", {}),
              ("Id", "int32", {}), ("InSyncReplicas", "[]int32", {}), ("WhatIsQ", "string", {}), ("TopicName", "string", {"entityType": "topicName"}),
              ("BrokerId", "int32", {"entityType": "brokerId", "default": "-1"}), ("ProducerId", "int64", {"entityType": "producerId"}),
-             ("Groups", "[]string", {"entityType": "groupId"}), ("MaxTimestampMs", "int64", {}), ("ExpiryTimestampMs", "int64", {"default": "-1"})]
+             ("Groups", "[]string", {"entityType": "groupId"}), ("Crc32C", "int32", {}), ("Sha256ID", "bytes", {}), ("Offset64K", "int64", {}),
+             ("V0Port", "int32", {}), ("X509Cert", "string", {}), ("MaxTimestampMs", "int64", {}), ("ExpiryTimestampMs", "int64", {"default": "-1"})]
     for n, t, kw in names:
         for flex in ("none", "0+"):
             for mk in ("request", "response"):
